@@ -136,7 +136,7 @@ func c09Adm(r *rng, id string) {
 	after := mn.observe(time.Now())
 	// observe() clears events/broadcasts: compare the state part and whether anything was emitted
 	changed := b2i(strings.Split(before, "|")[0] != strings.Split(after, "|")[0] || !strings.HasSuffix(after, "|-"))
-	emit("C09 adm id=%s join=%d veto=%d badvsn=%d badstate=%s res=%s changed=%d delegatecalls=%d", id, b2i(join), b2i(veto), b2i(bad), stLetter[st], res, changed, mn.mdel.calls)
+	emit("C09 adm id=%s join=%d veto=%d badvsn=%d badstate=%s res=%s changed=%d delegatecalls=%d usermerges=%d", id, b2i(join), b2i(veto), b2i(bad), stLetter[st], res, changed, mn.mdel.calls, mn.rec.userMerges)
 }
 
 // (c) a full join between a host with a history and a fresh joiner, both sides compared with the model
@@ -251,6 +251,36 @@ func c09Cut(r *rng, id string) {
 			bads = append(bads, fmt.Sprintf("panic:req:%d", cut))
 		} else if members(rcv2.m) != base || len(rcv2.del.merged) > 0 {
 			bads = append(bads, fmt.Sprintf("cut-request-changed-host:%d/%d", cut, len(req)))
+			break
+		}
+	}
+	// direction 1b: the same cut requests at a host that has no user Delegate (nobody consumes the
+	// user state that the sender ships behind the node records)
+	rc3 := rc
+	rc3.noDel = true
+	rcv3, err := newCnode(rc3)
+	if err != nil {
+		return
+	}
+	defer rcv3.m.Shutdown()
+	ml.VerifAliveNode(rcv3.m, 6, "n6", []byte{10, 0, 0, 6}, 7946, []byte("m6"), []uint8{1, 5, 2, 0, 0, 0}, nil, false)
+	base3 := members(rcv3.m)
+	for cut := 0; cut < len(req); cut++ {
+		total++
+		fc := newFragConn(req[:cut], randCuts(r, cut))
+		pan := false
+		func() {
+			defer func() {
+				if rec := recover(); rec != nil {
+					pan = true
+				}
+			}()
+			ml.VerifHandleConn(rcv3.m, fc)
+		}()
+		if pan {
+			bads = append(bads, fmt.Sprintf("panic:req-nodelegate:%d", cut))
+		} else if members(rcv3.m) != base3 {
+			bads = append(bads, fmt.Sprintf("cut-request-changed-host-without-delegate:%d/%d", cut, len(req)))
 			break
 		}
 	}
